@@ -509,7 +509,8 @@ class Explorer:
     ("b", value, cond) for a solver-decided branch or ("e", value, n) for an enumeration point."""
 
     def __init__(self, timeout_ms: int = 20000, max_paths: int = 200000, max_concretize: int = 64,
-                 max_depth: int = 4000, branch_timeout_ms: int = 3000, budget_s: float = 1800.0):
+                 max_depth: int = 4000, branch_timeout_ms: int = 3000, budget_s: float = 1800.0, max_cex: Optional[int] = None):
+        self.max_cex = max_cex      # stop exploring once this many counterexamples were found (a broken build yields thousands)
         self.s = z3.Solver()
         self.s.set("timeout", branch_timeout_ms)
         self.timeout_ms = timeout_ms
@@ -686,6 +687,9 @@ class Explorer:
                     break
                 if time.time() - self.t_start > self.budget_s:
                     self.aborts.append("time budget exceeded with open branches")
+                    break
+                if self.max_cex is not None and len(self.cexs) >= self.max_cex:
+                    self.aborts.append("counterexample cap reached with open branches")
                     break
                 prefix = todo.pop()
                 self.prefix = list(prefix)
